@@ -72,12 +72,21 @@ class _Normalise(ast.NodeTransformer):
                 n.ops[i] = ast.Is() if isinstance(op, ast.Eq) else ast.IsNot()
         return n
 
+    def visit_Assign(self, n):
+        # `x = a if c else b` is `if c: x = a else: x = b`
+        self.generic_visit(n)
+        if len(n.targets) == 1 and isinstance(n.targets[0], ast.Name) and isinstance(n.value, ast.IfExp):
+            def mk(v):
+                return ast.copy_location(ast.Assign(targets=[ast.Name(id=n.targets[0].id, ctx=ast.Store())], value=v, type_comment=None), n)
+            return ast.copy_location(ast.If(test=n.value.test, body=[self.visit_Assign(mk(n.value.body))], orelse=[self.visit_Assign(mk(n.value.orelse))]), n)
+        return n
+
     def visit_AnnAssign(self, n):
         # `x: T = v` is `x = v`; a bare declaration `x: T` is nothing
         self.generic_visit(n)
         if n.value is None:
             return ast.copy_location(ast.Pass(), n)
-        return ast.copy_location(ast.Assign(targets=[n.target], value=n.value, type_comment=None), n)
+        return self.visit_Assign(ast.copy_location(ast.Assign(targets=[n.target], value=n.value, type_comment=None), n))
 
     def generic_visit(self, node):
         super().generic_visit(node)
